@@ -1,18 +1,18 @@
 #!/bin/sh
-# usage: tools/run_all_mutants.sh [CXX ...]   -- runs every mutants/CXX/*.diff and seeded/*/patch.diff against the
-# quick tier of the property's check in scratch worktrees; prints one line per mutant; writes mutants/RESULTS.txt
+# usage: tools/run_all_mutants.sh OUTFILE CXX [CXX ...]  -- runs every mutants/CXX/*.diff and every seeded/*/patch.diff whose
+# meta.json names CXX against the quick tier of that check in scratch worktrees; appends one line per mutant to OUTFILE
 cd "$(dirname "$0")/.."
-props="$@"; [ -z "$props" ] && props=$(ls mutants | grep '^C')
-: > mutants/RESULTS.new
-for p in $props; do
+out="$1"; shift
+: > "$out"
+for p in "$@"; do
   for m in mutants/$p/*.diff; do
     [ -f "$m" ] || continue
-    tools/mutant.sh "$(basename $m .diff)" "$m" $p 2>&1 | grep "^\[" | tee -a mutants/RESULTS.new
+    tools/mutant.sh "$(basename $m .diff)" "$m" $p 2>&1 | grep "^\[" | cut -c1-260 >> "$out"
+  done
+  for d in seeded/*/; do
+    [ -f "$d/patch.diff" ] || continue
+    q=$(/venv/bin/python -c "import json;print(json.load(open('$d/meta.json'))['property'])")
+    [ "$q" = "$p" ] && tools/mutant.sh "seeded-$(basename $d)" "$d/patch.diff" $p 2>&1 | grep "^\[" | cut -c1-260 >> "$out"
   done
 done
-for d in seeded/*/; do
-  [ -f "$d/patch.diff" ] || continue
-  p=$(/venv/bin/python -c "import json;print(json.load(open('$d/meta.json'))['property'])")
-  case " $props " in *" $p "*) tools/mutant.sh "seeded-$(basename $d)" "$d/patch.diff" $p 2>&1 | grep "^\[" | tee -a mutants/RESULTS.new;; esac
-done
-mv mutants/RESULTS.new mutants/RESULTS.txt
+echo DONE >> "$out"
